@@ -132,9 +132,10 @@ def join_lines(lines):
 
 # ---------------------------------------------------------------- generation of valid documents
 class Gen:
-    def __init__(self, rng, nh=False, rich=True):
+    def __init__(self, rng, nh=False, rich=True, nh_mixed=False):
         self.rng = rng
-        self.nh = nh
+        self.nh = nh                  # False / True (a family is a native histogram with probability 0.4) / a probability
+        self.nh_mixed = nh_mixed      # native-histogram families may also carry classic groups (C15)
         self.rich = rich
         self.used = set()
 
@@ -439,6 +440,20 @@ class Gen:
             f = Family(self.fresh_name(), 'histogram', None, r.choice([None] + HELP_TEXTS))
             self.native_histogram(f)
             return f
+        if typ in ('nh-mixed', 'nh-mixed-last'):
+            # one histogram family holding classic groups AND native-histogram samples: the native samples stand
+            # last ('nh-mixed-last': always; the parser's "this line was a native histogram" state is then set when
+            # the family ends), first, or between two classic groups
+            f = Family(self.fresh_name(), 'histogram', None, r.choice([None] + HELP_TEXTS))
+            r.shuffle(f.meta)
+            self.histogram(f)
+            classic = f.groups
+            f.groups = []
+            self.native_histogram(f)
+            native = f.groups
+            at = len(classic) if (typ == 'nh-mixed-last' or r.random() < 0.5) else r.randrange(0, len(classic) + 1)
+            f.groups = classic[:at] + native + classic[at:]
+            return f
         name = self.fresh_name(unit, utf8_ok=(typ != 'stateset') or True)
         help_ = r.choice([None] + HELP_TEXTS) if self.rich else r.choice([None, 'help'])
         meta = ['TYPE', 'HELP', 'UNIT']
@@ -458,8 +473,8 @@ class Gen:
         fams = []
         for i in range(nfam):
             t = types[i] if types else None
-            if t is None and self.nh and r.random() < 0.4:
-                t = 'nh'
+            if t is None and self.nh and r.random() < (0.4 if self.nh is True else self.nh):
+                t = 'nh-mixed' if (self.nh_mixed and r.random() < 0.4) else 'nh'
             fams.append(self.family(t))
         return Doc(fams)
 
@@ -1290,8 +1305,81 @@ def v_hist_later_exposure(rng, doc):
     return out
 
 
-KNOWN_RULES = {'hist_bucket_repeated': v_hist_bucket_repeated, 'hist_le_nan': v_hist_le_nan}
+def v_native_sample_foreign_family(rng, doc):
+    """a native-histogram sample line moved into the sample block of ANOTHER histogram family (interleaved families): the
+    unchanged parser attaches it to that family whatever its name"""
+    tagged = doc_lines(doc)
+    lines = [l for l, _f, _t in tagged]
+    out = []
+    for i, (l, fi, tag) in enumerate(tagged):
+        if tag[0] != 'sample' or doc.families[fi].groups[tag[1]][tag[2]].raw is None:
+            continue
+        for j in range(len(tagged)):
+            fj = tagged[j][1]
+            if fj is None or fj == fi or tagged[j][2][0] != 'sample' or doc.families[fj].typ != 'histogram':
+                continue
+            if j >= 1 and tagged[j - 1][1] == fi and j > i:
+                continue            # would only move the line to the end of its own family
+            rest = lines[:]
+            x = rest.pop(i)
+            rest.insert(j if j <= i else j - 1, x)
+            out.append(join_lines(rest))
+    return out
+
+
+KNOWN_RULES = {'hist_bucket_repeated': v_hist_bucket_repeated, 'hist_le_nan': v_hist_le_nan,
+               'native_sample_foreign_family': v_native_sample_foreign_family}
 RULES['hist_later_exposure'] = v_hist_later_exposure
+
+
+def v_group_interleaved(rng, doc):
+    """the samples of one group split around another group of the same family (g1 g2 g1).  The parser refuses this
+    ("Invalid metric grouping"); the statement of C15 does not list it, so C15 uses these documents for the
+    correspondence only (rule name 'extra:...')."""
+    out = []
+    for fi, f in enumerate(doc.families):
+        if f.typ == 'info':
+            continue          # all info samples form one group
+        plain = [gi for gi, g in enumerate(f.groups) if g and all(s.raw is None for s in g)]
+        for a, b in zip(plain, plain[1:]):
+            for x, y in ((a, b), (b, a)):
+                d = _clone(doc)
+                gs = d.families[fi].groups
+                gx = gs[x]
+                if len(gx) >= 2:
+                    k = rng.randrange(1, len(gx))
+                    head, tail = gx[:k], gx[k:]
+                else:
+                    head, tail = gx, copy.deepcopy(gx)
+                # head of X, (native samples between the two), Y, tail of X
+                d.families[fi].groups = gs[:a] + [head] + gs[a + 1:b] + [gs[y]] + [tail] + gs[b + 1:]
+                out.append(render(d))
+    return out
+
+
+def v_native_line_moved(rng, doc):
+    """a native-histogram sample line moved into the sample block of another family.  Inside another HISTOGRAM family the
+    unchanged parser attaches it to that family whatever its name (defect candidate reported by C15: the sample of one
+    family sits inside another family and the document is accepted); elsewhere the line is no sample at all.
+    Correspondence only."""
+    tagged = doc_lines(doc)
+    lines = [l for l, _f, _t in tagged]
+    out = []
+    for i, (l, fi, tag) in enumerate(tagged):
+        if tag[0] != 'sample' or doc.families[fi].groups[tag[1]][tag[2]].raw is None:
+            continue
+        for j in range(len(tagged)):
+            fj = tagged[j][1]
+            if fj is None or fj == fi or tagged[j][2][0] != 'sample':
+                continue
+            rest = lines[:]
+            x = rest.pop(i)
+            rest.insert(j if j <= i else j - 1, x)
+            out.append(join_lines(rest))
+    return out
+
+
+EXTRA_RULES = {'group_interleaved': v_group_interleaved, 'native_line_moved': v_native_line_moved}
 
 
 def all_violations(rng, doc, per_rule=None):
@@ -1302,6 +1390,22 @@ def all_violations(rng, doc, per_rule=None):
         if per_rule is not None and len(vs) > per_rule:
             vs = rng.sample(vs, per_rule)
         out += [(name, v) for v in vs]
+    return out
+
+
+def focused_violations(rng, doc, fi, per_rule=None):
+    """-> [(rule, text)]: the rule violations of family fi ALONE (every rule, every position inside that family), each put
+    back at the family's place in the document: after the families in front of it and, when the violating text still
+    ends in its single '# EOF' line, in front of the families behind it.  Whatever precedes or follows, the text
+    still breaks the rule (the other families are valid and share no name with family fi)."""
+    before = ''.join(l + '\n' for l, _f, _t in doc_lines(Doc(doc.families[:fi], eof=False)))
+    after = ''.join(l + '\n' for l, _f, _t in doc_lines(Doc(doc.families[fi + 1:], eof=False)))
+    out = []
+    for rule, v in all_violations(rng, Doc([doc.families[fi]]), per_rule=per_rule):
+        lines = v.split('\n')
+        if after and len(lines) >= 2 and lines[-1] == '' and lines[-2] == '# EOF' and lines.count('# EOF') == 1:
+            v = join_lines(lines[:-2]) + after + '# EOF\n'
+        out.append((rule, before + v))
     return out
 
 
